@@ -302,6 +302,8 @@ def run_case(params):
             try:
                 p = fn(case, f)
             except Exception as e:  # valid input: the code under test must not fail
+                if not harness.from_repo(e):
+                    raise         # an error of the harness/oracle is never a violation
                 import traceback
                 p = ('%s/exception/%s' % (fmt, type(e).__name__), {'error': repr(e), 'trace': traceback.format_exc()[-700:]})
             b.hits += 1
